@@ -578,18 +578,23 @@ func (tree *MutableTree) enableFastStorageAndCommitIfNotEnabled() (bool, error) 
 	// downgrade and subsequent re-upgrade, we cannot know for sure which fast nodes have been removed while downgraded,
 	// Therefore, there might exist stale fast nodes on disk. As a result, to avoid persisting the stale state, it might
 	// be worth to delete the fast nodes from disk.
+	// The entries are deleted once the scan is closed: a delete may flush the batch, and a backend
+	// whose iterators hold a read lock (MemDB) blocks that write for as long as the scan is open.
 	fastItr := NewFastIterator(nil, nil, true, tree.ndb)
-	defer fastItr.Close()
-	var deletedFastNodes uint64
+	var staleFastNodes [][]byte
 	for ; fastItr.Valid(); fastItr.Next() {
-		deletedFastNodes++
-		if err := tree.ndb.DeleteFastNode(fastItr.Key()); err != nil {
-			return false, err
-		}
+		staleFastNodes = append(staleFastNodes, fastItr.Key())
 	}
-	if err := fastItr.Error(); err != nil {
+	err = fastItr.Error()
+	fastItr.Close()
+	if err != nil {
 		// the scan of the stale index was cut short: do not rebuild on top of its remains
 		return false, err
+	}
+	for _, key := range staleFastNodes {
+		if err := tree.ndb.DeleteFastNode(key); err != nil {
+			return false, err
+		}
 	}
 
 	if err := tree.enableFastStorageAndCommit(); err != nil {
